@@ -665,33 +665,89 @@ def rule_G(ck, units):
                 if ap is not None and ap[0] == 'this' and ap[2] and ap[2][0] in SRC:
                     return ap[2]
                 return None
-            events = []
+            # locals that may hold the source shared_ptr itself (`auto rem_src = a_rem;`): writes through them are writes to the source
+            # while they alias it - tracked flow-sensitively together with the value of keep_src
+            def src_ptr(e):
+                sp = src_of(e)
+                return sp[0] if sp is not None and len(sp) == 1 and unwrap(e)['k'] == 'mem' else None
+            cand = set()
             for n in f.nodes.values():
-                if n['i'] not in loc:
-                    continue
+                if n['k'] == 'decl':
+                    for v in n['v']:
+                        if v.get('init') is not None and src_ptr(v['init']) is not None:
+                            cand.add(v['d'])
+                elif n['k'] in ('bin', 'opcall') and n.get('op') == '=' and n.get('x') is not None and unwrap(n['x'])['k'] == 'ref' and src_ptr(n['y']) is not None:
+                    cand.add(unwrap(n['x'])['d'])
+
+            def via(e):
+                """(kind, name): ('member', path) for a_rem->..., ('local', decl) for an aliasing local"""
+                sp = src_of(e)
+                if sp is not None and len(sp) >= 2:
+                    return ('member', '->'.join(sp))
+                ap = ir.access_path(e)
+                if ap is not None and ap[0] == 'var' and ap[1] in cand and ap[2]:
+                    return ('local', ap[1])
+                return None
+            evs = {}
+
+            def add(n, kind, payload):
+                if n['i'] in loc:
+                    b_, pos = loc[n['i']]
+                    evs.setdefault(b_, []).append((pos, n['i'], kind, payload, n))
+            for n in f.nodes.values():
+                if n['k'] == 'decl':
+                    for v in n['v']:
+                        if v['d'] in cand:
+                            add(n, 'bind', (v['d'], v.get('init') is not None and src_ptr(v['init']) is not None))
+                elif n['k'] in ('bin', 'opcall') and n.get('op') == '=' and n.get('x') is not None and unwrap(n['x'])['k'] == 'ref' and unwrap(n['x'])['d'] in cand:
+                    add(n, 'bind', (unwrap(n['x'])['d'], src_ptr(n['y']) is not None))
                 if n['k'] == 'call':
                     obj = n.get('obj')
                     if obj is not None and n.get('m') in ('reset', 'swap') and src_of(obj) is not None and len(src_of(obj)) == 1:
-                        events.append((n, '%s is released (%s)' % (src_of(obj)[0], show(n))))
+                        add(n, 'mut', (('member', src_of(obj)[0]), '%s is released (%s)' % (src_of(obj)[0], show(n))))
                         continue
                     g = u.by_id.get(n.get('fd')) if 'fd' in n else None
-                    for i, a in enumerate(n.get('a', [])):
-                        sp = src_of(a)
-                        if sp is None or len(sp) < 2:
-                            continue             # the shared_ptr itself handed on (copy_matrix(a_rem, ...)) is not a write
+                    for i, a_ in enumerate(n.get('a', [])):
+                        w = via(a_)
+                        if w is None:
+                            continue
                         eff = an.param_effect(g, i) if g is not None and g.cfg is not None and i < len(g.params) else 'rw'
                         pd = g.decl(g.params[i]) if g is not None and i < len(g.params) else None
                         if pd is not None and pd.get('const') and not pd.get('ptr'):
                             eff = 'read'
                         if eff not in ('read', 'neutral'):
-                            events.append((n, '%s is written by %s through argument %d (%s)' % ('->'.join(sp), (n.get('f') or n.get('m') or '?').split('::')[-1], i, show(a))))
-                elif n['k'] == 'bin' and n['op'] in ('=', '+=', '-=', '*=', '/='):
+                            add(n, 'mut', (w, '%s is written by %s through argument %d' % (show(a_), (n.get('f') or n.get('m') or '?').split('::')[-1], i)))
+                elif n['k'] in ('bin', 'opcall') and n.get('op') in ('=', '+=', '-=', '*=', '/=') and n.get('x') is not None:
+                    w = via(n['x'])
                     sp = src_of(n['x'])
-                    if sp is not None and (len(sp) >= 2 or n['op'] == '='):
-                        events.append((n, '%s is assigned (%s)' % ('->'.join(sp), show(n)[:50])))
+                    if w is not None:
+                        add(n, 'mut', (w, '%s is assigned' % show(n['x'])[:40]))
+                    elif sp is not None and len(sp) == 1 and n['op'] == '=' and unwrap(n['x'])['k'] == 'mem':
+                        add(n, 'mut', (('member', sp[0]), '%s is re-assigned' % sp[0]))
+            for b_ in evs:
+                evs[b_].sort(key=lambda t: (t[0], t[1]))
+            found = {}
 
-            def edge(b, k, s_, st):
-                c = f.cfg.cond(b)
+            def transfer(b_, st, record=False):
+                out = set()
+                for ksv, al in st:
+                    al = set(al)
+                    for pos, nid, kind, p_, node in evs.get(b_, ()):
+                        if kind == 'bind':
+                            (al.add if p_[1] else al.discard)(p_[0])
+                        elif kind == 'mut' and record:
+                            w, what = p_
+                            hits_src = w[0] == 'member' or (w[0] == 'local' and w[1] in al)
+                            key_ = (nid, what)
+                            if hits_src:
+                                found.setdefault(key_, [node, False])
+                                if ksv:
+                                    found[key_][1] = True
+                    out.add((ksv, frozenset(al)))
+                return frozenset(out)
+
+            def edge(b_, k, s_, st):
+                c = f.cfg.cond(b_)
                 if c is None:
                     return st
                 cu = unwrap(c)
@@ -701,18 +757,15 @@ def rule_G(ck, units):
                     cu = unwrap(cu['e'])
                 if cu is not None and cu['k'] == 'ref' and cu['d'] == ks:
                     val = (k == 0) != neg
-                    st = st & frozenset([val])
+                    st = frozenset(t for t in st if t[0] == val)
                     return st if st else None
                 return st
-            IN, OUT = f.cfg.forward(frozenset([True, False]), lambda b, st: st, edge=edge, join=lambda a, b_: a | b_)
-            for n, what in events:
-                b = loc[n['i']][0]
-                st = IN.get(b)
-                if st is None:
-                    continue
-                ok = True not in st
-                ck.ob('G.keep-src-honoured', 'distributed_matrix::move_to_backend|%s' % what.split(' (')[0], f.where(n), ok,
-                      '' if ok else '%s at %s on a path where keep_src is true: the caller keeps using the source matrix' % (what, f.where(n)))
+            IN, OUT = f.cfg.forward(frozenset([(True, frozenset()), (False, frozenset())]), transfer, edge=edge, join=lambda a_, b2: a_ | b2)
+            for b_, st in IN.items():
+                transfer(b_, st, record=True)
+            for (nid, what), (node, bad) in sorted(found.items()):
+                ck.ob('G.keep-src-honoured', 'distributed_matrix::move_to_backend|%s' % what.split(' (')[0], f.where(node), not bad,
+                      '' if not bad else '%s at %s on a path where keep_src is true: the caller keeps using the source matrix' % (what, f.where(node)))
 
 
 def _poly(f, e, depth=0):
